@@ -162,6 +162,18 @@ Section Middle.
     cbn [fst snd f_off f_len fw] in H. rewrite Z.add_0_r in H. exact H.
   Qed.
 
+  Lemma next_field_read : forall k, 0 <= k <= n ->
+    ReadInt57 mem' (m_base m) (k * tb + m_wb m + m_qb m) (m_nb m) (Z.ones (m_nb m)) = next_of k.
+  Proof.
+    intros k Hk. unfold next_of. destruct (Z.ltb_spec k n) as [Hlt|Hge].
+    - destruct (cells_nth recs 0 k ltac:(lia)) as [_ [_ I3]]. cbn zeta in I3. rewrite Z.add_0_l in I3.
+      pose proof (read_cell (k, fn, snd (nth (Z.to_nat k) recs (0, 0, 0))) ltac:(unfold L; apply in_or_app; left; exact I3)) as H3.
+      cbn [fst snd f_off f_len fn] in H3. rewrite <- H3. f_equal. lia.
+    - assert (Ek : k = n) by lia. subst k.
+      pose proof (read_cell (n, fn, next_end) ltac:(unfold L; apply in_or_app; right; left; reflexivity)) as H4.
+      cbn [fst snd f_off f_len fn] in H4. rewrite <- H4. f_equal. lia.
+  Qed.
+
   Theorem mid_refines : forall fuel word b e, 0 <= b -> b <= e -> e <= n -> m_max_vocab m < 2 ^ 32 ->
     (forall i j, b <= i -> i <= j -> j < e -> word_of i <= word_of j) ->
     (forall i, b <= i < e -> word_of i <= m_max_vocab m) -> 0 <= word <= m_max_vocab m -> e - b <= 2 ^ 32 ->
